@@ -78,6 +78,28 @@ def auc_event(ev, s, h, qs):
         e["exc"] = sd.exc_str(ex)
 
 
+HUGE = [3_000_000_000, 5_000_000_000, 2**31, 2**32 + 1]
+
+
+def auc_huge_event(ev, o, g, h, cid):
+    """the object of handle h rebuilt with >= 2^31 easy samples on one side (the other side keeps its
+    small easy count): records x = (1 - auc) * population of the huge side, a small rational that
+    does not depend on the huge count."""
+    side = ["neg", "pos"][cid % 2]
+    E = HUGE[(cid // 2) % len(HUGE)]
+    e = ev("auc_huge", h=h, side=side, x=[0, 0])
+    try:
+        o2 = dict(o, en=E) if side == "neg" else dict(o, ep=E)
+        v = float(sd.build(o2, g).auc())
+        n_side = (len(o["neg"]) if side == "neg" else len(o["pos"])) + E
+        x = (1.0 - v) * n_side
+        fr = Fraction(x).limit_denominator(64)
+        e["x"] = [fr.numerator, fr.denominator] if (abs(float(fr) - x) <= 1e-4 * max(abs(x), 1e-3)
+                                                      and abs(fr.numerator) < 10**6) else [0, -1]
+    except Exception as ex:  # noqa
+        e["exc"] = sd.exc_str(ex)
+
+
 def events_for_case(o, cid, g, cuts, ids):
     evs = []
     ev = sd.make_ev(evs, ids, cid, g)
@@ -85,6 +107,11 @@ def events_for_case(o, cid, g, cuts, ids):
     if s is None:
         return evs
     auc_event(ev, s, 1, queries(cuts, cid))
+    if cid % 3 == 0:
+        on = dict(o, en=0) if cid % 2 == 0 else dict(o, ep=0)   # abstract object: huge side declared 0
+        sn = sd.new_event(ev, on, g, h=3)
+        if sn is not None:
+            auc_huge_event(ev, on, g, 3, cid)
     o2 = dict(o, ec="neg" if o["ec"] == "pos" else "pos")
     s2 = sd.new_event(ev, o2, g, h=2)
     if s2 is not None:
@@ -100,7 +127,7 @@ def run(ctx: core.Ctx):
     data = json.loads(cases_file.read_text())
     cuts, cases = data["cuts"], data["cases"]
     fam = [gamma.ident(), gamma.affine(2.5, -7.0), gamma.ident_int(), gamma.affine(0.1, 0.3),
-           gamma.affine(700.0, 3.0)]
+           gamma.affine(700.0, 3.0), gamma.ulp_adjacent(0.5), gamma.ulp_adjacent(1024.0)]
     ids = iter(range(1, 10**9))
     events = []
     for cid, o in enumerate(cases):
